@@ -899,6 +899,11 @@ pub fn judge(c: &OpCase, publics: &[Fq]) -> Judgement {
             Ok(false) => Judgement::Inadmissible,
             Err(e) => Judgement::Wrong(e),
         },
+        "vp" => match crate::ops_hash::varpos::check(c, publics) {
+            Ok(true) => Judgement::Holds,
+            Ok(false) => Judgement::Inadmissible,
+            Err(e) => Judgement::Wrong(e),
+        },
         "hr" => match crate::ops_hash::rip::check(c, publics) {
             Ok(true) => Judgement::Holds,
             Ok(false) => Judgement::Inadmissible,
@@ -969,7 +974,7 @@ pub fn expected_admissible(c: &OpCase) -> bool {
         "h" => crate::ops_hash::expected_admissible(c),
         "ng" => crate::ops_ng::expected_admissible(c),
         "rx" => crate::ops_parse::rx_expected_admissible(c),
-        "sp" | "vh" | "hr" | "map" => true,
+        "sp" | "vh" | "vp" | "hr" | "map" => true,
         "b64" => crate::ops_parse::b64_expected_admissible(c),
         "b64v" => crate::ops_parse::b64v_expected_admissible(c),
         _ => {
@@ -999,6 +1004,8 @@ pub fn gen_case(rng: &mut Prng, op: &str) -> OpCase {
         crate::ops_parse::b64v_gen_case(rng, op)
     } else if op.starts_with("map.") {
         crate::ops_map::gen_case(rng)
+    } else if op.starts_with("vp.") {
+        crate::ops_hash::varpos::gen_case(rng)
     } else if op.starts_with("hr.") {
         crate::ops_hash::rip::gen_case(rng)
     } else if op.starts_with("vh.") {
